@@ -14,6 +14,9 @@ package main
 //   - The file readers NewMapsFromJsonFile / NewMapsFromXmlFile are translated in the same mode: os.Stat / os.Open are the
 //     environment functions ext_os_Stat (is it a regular file) and ext_os_Open (the schedule of Read results the file delivers),
 //     `defer fh.Close()` changes no value.
+//   - The file writers Maps.JsonFile[Indent] / Maps.XmlFile[Indent]: the files a function creates are a hidden state `p_fs : fslog`
+//     (name and content, in creation order); os.Create is ext_os_Create (can it be created) and adds an empty entry, fh.WriteString
+//     appends to that entry (the Go code ignores the count and the error of the write as well).
 
 import (
 	"go/ast"
@@ -21,7 +24,8 @@ import (
 )
 
 var handlerFuncs = map[string]bool{"HandleXmlReader": true, "HandleXmlReaderRaw": true, "HandleJsonReader": true, "HandleJsonReaderRaw": true,
-	"NewMapsFromJsonFile": true, "NewMapsFromXmlFile": true, "NewMapsFromJsonFileRaw": true, "NewMapsFromXmlFileRaw": true}
+	"NewMapsFromJsonFile": true, "NewMapsFromXmlFile": true, "NewMapsFromJsonFileRaw": true, "NewMapsFromXmlFileRaw": true,
+	"Maps.JsonFile": true, "Maps.JsonFileIndent": true, "Maps.XmlFile": true, "Maps.XmlFileIndent": true}
 
 // handlerCall: ok := h(a1, ..., an) with h a handler parameter.  done = it was handled here.
 func (t *fnTr) handlerCall(x *ast.AssignStmt, c *ast.CallExpr, next func() string) (string, bool) {
